@@ -146,7 +146,7 @@ func TestC05Loop(t *testing.T) {
 func TestReplayC05Loop(t *testing.T) { replayLoop(t, recC05(), "TestC05Loop", "C03", true) }
 
 func recC06() *vkit.Recorder {
-	r := vkit.Rec("C06", "fault_enumeration", "closed-loop runs as in C03 with up to 4 faults from the alphabet {targets POST not delivered, POST applied but reply lost (both armed on the next POST / next adding POST / next POST that marks a transfer), sidecar restart from its store, shard unready / unreachable / out of sync with rejected pushes for k cycles, tail shard killed and re-created with or without its store, StatefulSet scaled down from outside for good} placed anywhere in a generated prefix (30% of the cases: a directed scenario in which a relief or scale-down move certainly happens and 1-3 faults hit it before it starts or after 0-3 scrape rounds), then all faults cleared and the C03 convergence oracle; non-trivial = a run in which an armed fault fired or a timed fault covered a cycle that changed something; distinct = digest of the case")
+	r := vkit.Rec("C06", "fault_enumeration", "closed-loop runs as in C03 with up to 4 faults from the alphabet {targets POST not delivered, POST applied but reply lost (both armed on the next POST / next adding POST / next POST that marks a transfer), sidecar restart from its store, shard unready / unreachable / out of sync with rejected pushes for k cycles, tail shard killed and re-created with or without its store, every target update of a shard answered with an error for 2-6 cycles, a shard without HTTP client for a job for 2-6 cycles, StatefulSet scaled down from outside for good} placed anywhere in a generated prefix (30% of the cases: a directed scenario in which a relief or scale-down move certainly happens and 1-3 faults hit it before it starts or after 0-3 scrape rounds), then all faults cleared and the C03 convergence oracle; non-trivial = a run in which an armed fault fired or a timed fault covered a cycle that changed something; distinct = digest of the case")
 	r.Assume(loopAssume, "at most 4 faults per run, <= 4 initial shards, <= 6 targets")
 	return r
 }
